@@ -255,7 +255,16 @@ func (x *c20) nextManifest() manifest.Manifest {
 		x.r.Count("probe:update-rolls-back")
 		return cloneManifest(x.versions[len(x.versions)-2].m)
 	}
-	return x.buildManifest(len(x.versions))
+	nm := x.buildManifest(len(x.versions))
+	if x.r.Bool(12, "update.inconsistent-version") {
+		// nothing on chain ties the version to the groups: the tenant records the hash of a manifest that
+		// disagrees with the on-chain groups (a replica count).  Its hash is the version; it must still be
+		// refused by the resource comparison, for every group, leased to this provider yet or not.
+		g := &nm[x.r.Choose(len(nm), "update.inconsistent.group")]
+		g.Services[0].Count += 2
+		x.r.Count("probe:version-of-a-mismatching-manifest")
+	}
+	return nm
 }
 
 // groupsMatch: harness-side statement of C10's resource clause (multisets of units x counts, endpoint counts).
